@@ -53,7 +53,8 @@ def run(ctx):
     raisable = [ErrA, ErrB, ErrC, ValueError, OSError]
     for trial in range(ctx.scale(160, 2000)):
         tags.clear()
-        origin = ['early', 'ordinary', 'reaction', 'decoder', 'exit', 'status-eof', 'status-eof-refused'][trial % 7]
+        origin = ['early', 'ordinary', 'reaction', 'decoder', 'exit', 'status-eof', 'status-eof-refused',
+                  'status-invalid', 'status-oserror'][trial % 9]
         calls = []
         hspec = []
         nh = rng.randrange(0, 5)
@@ -64,7 +65,7 @@ def run(ctx):
             e = cls('x%d' % len(keep))
             keep.append(e)
             return e
-        first_exc = mkexc(rng.choice(raisable))
+        first_exc = mkexc(rng.choice(raisable) if origin != 'status-oserror' else OSError)
 
         armed = [True]
 
@@ -87,6 +88,16 @@ def run(ctx):
             cfg['status'] = 'close'
             allowed = {757, 756}
             refuse = (lambda i: i >= 1) if origin.endswith('refused') else False
+        elif origin == 'status-invalid':
+            # version negotiation: the built-in reaction raises IOError('Invalid server status.') -- an
+            # ordinary fault, NOT the end-of-stream case the status reactor treats as non-fatal
+            cfg['script'] = [('success',)]
+            cfg['status'] = ('json', '{}')
+            allowed = {757, 756}
+        elif origin == 'status-oserror':
+            # an early listener raises an OSError-family exception while the status reply is processed
+            cfg['script'] = [('success',)]
+            allowed = {757, 756}
         fin_exc = mkexc(rng.choice(raisable))
 
         def final_ret(e, info):
@@ -125,7 +136,7 @@ def run(ctx):
                     order.insert(0, (hid, types_, beh))
                 else:
                     order.append((hid, types_, beh))
-            if origin == 'early':
+            if origin in ('early', 'status-oserror'):
                 conn.register_packet_listener(thrower, P.Packet, early=True)
             elif origin == 'ordinary':
                 conn.register_packet_listener(thrower, P.Packet)
@@ -150,7 +161,7 @@ def run(ctx):
             except Exception as e:
                 reconnect = repr(e)
         # the exception that entered _handle_exception
-        if origin in ('early', 'ordinary'):
+        if origin in ('early', 'ordinary', 'status-oserror'):
             orig = first_exc
         elif origin == 'exit':
             orig = exit_exc
@@ -310,7 +321,8 @@ def run(ctx):
             if not bad and (live or not slots_clear):
                 bad = 'after the dispatch %d socket(s) are still open, thread slots clear=%s (networking_thread=%r new=%r)' % (
                     len(live), slots_clear, conn.networking_thread, conn.new_networking_thread)
-            if not bad and kind == 'D' and not any(x[0] == 'F' for x in log):
+            # (variant 1, a failing socket: since fix 584a461 the flush failure no longer escapes disconnect())
+            if not bad and kind == 'D' and variant == 0 and not any(x[0] == 'F' for x in log):
                 bad = 'the exception escaping the listener never reached the final handler: %r' % (log,)
             if not bad:
                 cfg['script'] = [('success',), ('close',)]
